@@ -339,9 +339,10 @@ func protoBytesLit2(n ast.Node) (string, bool) {
 }
 
 // protoCmpTokens: the size/count/state comparisons of a condition, in order:
-//   len(params) < k  -> "params<k"      X <= 0 -> "<=0"     X < 0 -> "<0"
-//   X > ...Name      -> ">Name"         ...State) != stateInit -> "state!=stateInit" etc.
-//   len(p) != MsgIDLength -> "len!=MsgIDLength"
+//
+//	len(params) < k  -> "params<k"      X <= 0 -> "<=0"     X < 0 -> "<0"
+//	X > ...Name      -> ">Name"         ...State) != stateInit -> "state!=stateInit" etc.
+//	len(p) != MsgIDLength -> "len!=MsgIDLength"
 func protoCmpTokens(e ast.Expr, out *[]string) {
 	switch x := e.(type) {
 	case *ast.ParenExpr:
